@@ -190,12 +190,31 @@ func (fx *FnCtx) evalSpec(env *Env, e SExpr) Val {
 		return Val{"nil", "nil", nil}
 	case *SIdent:
 		return fx.specIdent(env, x.Name)
+	case *SCall:
+		if x.Fn == "outer" && len(x.Args) == 1 {
+			// outer(e): e in the function's own names, hiding the callee's parameter names of a caller-side clause
+			o := *env
+			o.callee = nil
+			return fx.evalSpec(&o, x.Args[0])
+		}
+		if x.Fn == "atcall" && len(x.Args) == 1 {
+			// atcall(e): like outer(e), with the heap as it was immediately before the call under discussion
+			if env.callHeap == nil {
+				fx.fail("atcall() is only available in must-call / all-calls clauses")
+			}
+			o := *env
+			o.callee = nil
+			o.heap = env.callHeap
+			return fx.evalSpec(&o, x.Args[0])
+		}
+		return fx.specCall(env, x)
 	case *SOld:
 		if env.old == nil {
 			fx.fail("old() not available here")
 		}
 		o := *env.old
 		o.bound = env.bound
+		o.callee = env.callee
 		// old(e): heap and parameters as at entry; locals of the body keep their current value
 		if len(env.named) > 0 {
 			m := copyNamed(env.named)
@@ -318,8 +337,6 @@ func (fx *FnCtx) evalSpec(env *Env, e SExpr) Val {
 			q = "forall"
 		}
 		return Val{"(" + q + " (" + strings.Join(decl, " ") + ") " + body + ")", "Bool", tBool}
-	case *SCall:
-		return fx.specCall(env, x)
 	}
 	fx.fail("evalSpec: unsupported %T", e)
 	return Val{}
@@ -344,6 +361,9 @@ func (fx *FnCtx) constVal(c constant.Value, t types.Type) Val {
 
 func (fx *FnCtx) specIdent(env *Env, name string) Val {
 	if v, ok := env.bound[name]; ok {
+		return v
+	}
+	if v, ok := env.callee[name]; ok {
 		return v
 	}
 	if v, ok := env.named[name]; ok {
